@@ -45,7 +45,7 @@ claim("C01", "MIR must-pass-through + sibling agreement of header tables + domin
       "(2) the two encoders and seven decoders agree on the header tables (symbolic expressions reconstructed from MIR); (3) every Entry construction is dominated by the checksum-equal edge; (4) the first planned range of a batch read is widened to the entry at the cursor (shared with C03.3); (5) both paths of Reader::append_block_to_chain carry a tail position "
       "over to the sealed chain identically and only under tail_block_id == block.id; (6) once the batch parser has stopped for the byte budget (entry does not fit, or the planned range was cut in front of / inside an entry) nothing more is pushed (shared with C03.4); "
       "(7) every step to the next block of the chain - read_next's advance, the batch planner's index, the batch parser's committed position (followed through the commit closure) - is taken only under `offset reached >= block.used` (the planner: only after a range planned to the end of the block). "
-      "Ordering, once-only delivery across blocks and the planner/budget interaction are not decided.", design="4/C01")
+      "Ordering, once-only delivery across blocks and the planner/budget interaction are not decided. Also: the two halves of the batch cursor are assigned together and the commit sets the cursor to exactly the reached position; the checksum of the empty payload is the fold's non-zero start value.", design="4/C01")
 claim("C04", "MIR path rules over Ok/Err edges (NOEXIT, must-not-reach), error discipline",
       "Decides for all inputs and failure points the shape conditions of 'failed appends leave no trace': no exit between sealing a block and installing its successor, rejections precede "
       "every effect, publish stores are unreachable from failed writes/flushes and nothing can fail after a publish, error exits after the first effect pass rollback+unlock (infeasible exits tabled), "
@@ -54,21 +54,21 @@ claim("C04", "MIR path rules over Ok/Err edges (NOEXIT, must-not-reach), error d
 claim("C12", "MIR who-may-call tables + finite evaluation of the readiness predicate + control dependence",
       "Decides who may delete files and request deletions, the exact readiness predicate of flush_check (evaluated over its sub-CFG on a finite abstract domain), the dominance conditions "
       "of every consumed-mark site (a block is marked only when a position the consumer has really reached - the cursor's own offset, or in a consuming read_next that offset plus the entry "
-      "just read - is at the block's end; a planned end of range does not count) and the idempotence of marks (control dependence of the counter increment on an atomic RMW of the per-block flag). 'Durably consumed' under AtLeastOnce is not decided.",
+      "just read - is at the block's end; a planned end of range does not count) and the idempotence of marks (control dependence of the counter increment on an atomic RMW of the per-block flag). 'Durably consumed' under AtLeastOnce is not decided. Also: a block is registered under the file it lives in (no rollover between registration and hand-out).",
       design="4/C12")
 claim("C15", "MIR who-may-write + edge dominance + dataflow roles",
       "Decides the in-process clause for all inputs: writers of the count map, increments only after a successful append by exactly the appended number, decrements only under "
       "checkpoint (and stateful) by exactly the number of parsed entries, deliveries and decrements paired by must-pass-through. Of the recount after restart only a must-depend clause is decided (every table index and the partial-block count depend "
-      "on the persisted (block, offset) pair, by data or unshared control dependence, and the persisted block is searched by id over the whole recovered chain); its arithmetic is not.", design="4/C15, 10.1")
+      "on the persisted (block, offset) pair, by data or unshared control dependence, and the persisted block is searched by id over the whole recovered chain); its arithmetic is not. Also: the recovery scan counts every entry it accepts (the recount's input), and the persisted tail block is looked up with a forward index.", design="4/C15, 10.1")
 claim("C16", "MIR sibling agreement via symbolic expression reconstruction + ring-lifetime dataflow",
       "Decides agreement of the sibling implementations: the two entry encoders (field sources, serializer, prefix encoding, ranges, guard), the three read-range builders and exhaustive "
       "two-arm backend dispatch, and that the io_uring path keeps no queue state across batches (the ring is created in the call and sized from the plan, or a missing completion is a failure). "
-      "Equality of results over operation sequences is not decided.", design="4/C16, 10.1")
+      "Equality of results over operation sequences is not decided. Also: each io_uring operation is built on the descriptor of its own planned range's block.", design="4/C16, 10.1")
 
 claim("C05", "MIR RMW rule on slices with lock-guard provenance + truth table of the hold flag",
       "Schedules are not enumerated. The check decides, for every path, the absence of the atomicity-violation shapes that make duplicate delivery possible: a cursor commit computed "
       "from state read under another acquisition of the column lock, and a consuming stateful batch read that releases its guard between planning and commit (hold flag truth table "
-      "evaluated over its defining sub-CFG for all valuations of consistency - including the payload of AtLeastOnce -, checkpoint and start_offset); and on the producer side that Writer::write and Writer::batch_write hold the current_block and current_offset guards taken before planning until after their last storage write (no release point reaches a write). Ordering between producers and fairness are not decided.", design="4/C05")
+      "evaluated over its defining sub-CFG for all valuations of consistency - including the payload of AtLeastOnce -, checkpoint and start_offset); and on the producer side that Writer::write and Writer::batch_write hold the current_block and current_offset guards taken before planning until after their last storage write (no release point reaches a write). Ordering between producers and fairness are not decided. Also: a block is never both sealed and active (no exit between sealing and installing the successor, shared with C04.1).", design="4/C05")
 claim("C09", "MIR only-allowed-bypass between commit and persist + reaching stores + finite evaluation + ORD",
       "Decides persist-before-return for StrictlyAtOnce as a path property: from each cursor commit the persisted-index write can be bypassed only by the should_persist verdict, "
       "checkpoint=false or a poisoned lock, and every WalIndex method used to record the position persists on all of its paths; the (index, offset) pair that is packaged for the "
@@ -92,12 +92,12 @@ claim("C06", "MIR sibling agreement of layout tables + natural-loop exit and loo
 claim("C07", "MIR dominance along the resolved call chain + plan completeness + verified-reader dataflow + error-source table",
       "Ack-after-write decided on all paths from the public append APIs down to the positional write of each backend, plan completeness/element agreement in both batch paths, and that "
       "the recovery scan advances only by sizes returned by checksum-verified readers (a torn, never-acknowledged entry is not counted into a block), and "
-      "every error exit of the open path originates from a filesystem call or lock (never from decoding file contents). What recovery reconstructs is covered only by C06's clauses.",
+      "every error exit of the open path originates from a filesystem call or lock (never from decoding file contents). What recovery reconstructs is covered only by C06's clauses. Also: a rolled-back batch leaves no parseable entry behind (every planned header zeroed, shared with C04.3d), and no read-side code consults the block limit that recovery re-creates differently.",
       design="4/C07")
 claim("C11", "MIR panic-freedom enumeration with discharge rules/table + who-may-call + dominance of length bounds",
       "Enumerates every potential panic site (Assert terminators, unwrap/expect, indexing, slice copies, allocations) in the call-graph closure of the open path and discharges each by "
       "a dominance/interval rule or a reasoned table row; forbids unvalidated rkyv roots on file bytes (9 known findings listed); requires a dominating bound for every use of the "
-      "on-disk length; checksum gate. Hangs and mis-association of valid-looking foreign entries are not decided.", design="4/C11")
+      "on-disk length; checksum gate. Hangs and mis-association of valid-looking foreign entries are not decided. Also: the cursor / marker files are replaced atomically from a truncated temporary, so a leftover temporary cannot leak into what the next open parses; the checksum of an empty payload is non-zero, so a zeroed header does not verify.", design="4/C11")
 claim("C13", "static inventory + interprocedural key provenance + who-may-call for filesystem sinks",
       "Decides which process-global state exists (inventory of interior-mutable statics against a reasoned table), that global maps - the two trackers and the mapping cache - are keyed by the whole root-derived path, through views and copies only (one known finding), "
       "and that filesystem access is confined to triaged functions with root-derived operands. Observable interference itself is not decided.", design="4/C13")
@@ -105,14 +105,14 @@ claim("C13", "static inventory + interprocedural key provenance + who-may-call f
 claim("C18", "MIR (stub harness) panic-freedom + def-use/ordering invariants + written lemma",
       "The real metadata.rs is type-checked with stub dependencies and analysed on MIR: every panic obligation of apply/snapshot/restore is discharged or reported (operands sliced to "
       "the decoded command can never be discharged), and seven structural invariants of apply are decided for all paths; with the lemma in the evidence they give contiguity 1..current, "
-      "immutability of sealed entries (the history maps are reached mutably only through insert), leader consistency and offset = sum of counts for every command sequence.", design="4/C18",
+      "immutability of sealed entries (the history maps are reached mutably only through insert), leader consistency and offset = sum of counts for every command sequence. Also: apply is all-or-nothing (no Err exit behind the first change to the state).", design="4/C18",
       note=MIR_NOTE + " distributed-walrus cannot be built offline; harness/dwshim type-checks the real file against signature-only stubs whose faithfulness is checked (C18.3).")
 claim("C20", "AST dataflow on the adapter + MIR type/whole-state obligations",
       "Decides where the adapter's snapshot bytes come from and what restore receives (two known findings), unconditional in-order forwarding of Normal entries, and that Metadata "
-      "snapshot/restore are type-symmetric, whole-state and skip no field. The Raft snapshot transport is not decided.", note=AST_NOTE, engine="ast", design="4/C20")
+      "snapshot/restore are type-symmetric, whole-state and skip no field. The Raft snapshot transport is not decided. Also: what snapshot() returns is encoded in that call, or the field it is cached in is reset behind every state change.", note=AST_NOTE, engine="ast", design="4/C20")
 claim("C21", "AST path rules + literal-argument rule backed by MIR effect, verified-reader and only-allowed-bypass analyses of the vendored engine",
       "Decides persist-before-acknowledge for every WalLogStore mutator, exhaustive replay of record kinds, the peer-address flag correlation, and that the recovery read is "
-      "non-consuming (known finding: it is durably consuming, shown via the vendored engine's MIR); on the MIR of the vendored engine copy, that its recovery scan counts only checksum-verified records and that its batch read can get past a record larger than read_all's byte budget (known finding: it cannot). Contents after replay are not decided.", note=AST_NOTE, engine="ast", design="4/C21")
+      "non-consuming (known finding: it is durably consuming, shown via the vendored engine's MIR); on the MIR of the vendored engine copy, that its recovery scan counts only checksum-verified records and that its batch read can get past a record larger than read_all's byte budget (known finding: it cannot). Contents after replay are not decided. Also (vendored engine): the two halves of the batch cursor that read_all's consecutive reads resume from are assigned together.", note=AST_NOTE, engine="ast", design="4/C21")
 claim("C22", "AST path enumeration of bookkeeping pairings + must-pass-through of the lease refresh",
       "Only the bookkeeping pairings without which the property fails on every schedule: one count per acknowledged append before the rollover test, the sealed count proposed is the "
       "tracked count of that very segment, the reader's per-segment counter moves exactly with returned entries, every path of forward_append refreshes the leases before it appends, and the lease test and the engine append form one critical section (known finding, shared with C23.1: they do not; two concurrent PUTs at a threshold of 1 lose the second). The other interleaving clauses (duplicate rollovers, monitor timing) "
